@@ -1,6 +1,6 @@
 #!/venv/bin/python
 """Register the confirmed sub-agent mutants of one round: register_round.py <outdir> <round> <first index> <verify log>
-(outdir has Cxx/patchN.diff, demoN.py, metaN.json; N=1,2 become seeded/Cxx-<first>, Cxx-<first+1>)"""
+(outdir has Cxx/patchN.diff, demoN.py, metaN.json; N=1,2[,3] become seeded/Cxx-<first>, Cxx-<first+1>[, Cxx-<first+2>])"""
 import json, os, re, shutil, subprocess, sys
 VERIF = os.path.dirname(os.path.dirname(os.path.abspath(__file__)))
 out, rnd, first, vlog = sys.argv[1], int(sys.argv[2]), int(sys.argv[3]), sys.argv[4]
@@ -15,7 +15,9 @@ d = json.load(open(vp))
 names = {v["name"] for v in d["variants"]}
 n = 0
 for pid in sorted(x for x in os.listdir(out) if re.fullmatch(r"C\d\d", x)):
-    for i in (1, 2):
+    for i in (1, 2, 3):
+        if i == 3 and not os.path.exists(os.path.join(out, pid, "patch3.diff")):
+            continue
         st, info = conf.get((pid, i), ("missing", ""))
         if st != "OK":
             print("skip", pid, i, st)
